@@ -13,7 +13,7 @@ TIE = 'Tie.C02'
 DEN = 4096
 SHARD = 60
 LABELS = ['A', 'B', 'C']
-KINDS = ['cubic', 'ortho', 'mono', 'hexlike', 'tri', 'tri_full']
+KINDS = ['cubic', 'ortho', 'mono', 'hexlike', 'hex', 'tri', 'tri_full']
 GUARD = 2e-5      # relative; the KD-tree works in float32
 RULE = ('cases = lattice (6 classes, integer matrices) x orientation (as given / rigidly rotated / rebuilt with Lattice.from_parameters) x site set (2-6 sites on the 1/8 '
         'grid incl. cell faces and corners, 1-3 labels incl. label groups with never-visited members) x 1-3 atoms x 3-8 frames placed near, between and far from '
